@@ -203,6 +203,52 @@ def free_exec(chk, repo, f, sym):
     return True
 
 
+def not_processed_only(chk, repo):
+    """R25.5, as a who-may-raise rule: find_free_address reads an
+    EtherCatError from its probe as "nobody answers at this address".  In
+    the datagram layer (the methods of EtherCat that send, receive and
+    complete requests) that exception is constructed in one place: for a
+    datagram that came back with working counter 0.  Every other failure
+    of the layer - a send fault, a frame that is too long, a counter that
+    is too high - reaches the requester as something else."""
+    ec = repo.cls(E + "EtherCat")
+    n = 0
+    bad = []
+    for ci in [ec] + [c for c in repo.subclasses(ec.qualname)
+                      if c is not ec and not c.module.name.endswith("_test")]:
+        for name, f in ci.methods.items():
+            if not isinstance(f, FUNC):
+                continue
+            for c in walk_no_nested(f):
+                if not (isinstance(c, ast.Call) and (dotted(c.func) or ""
+                                                     ).split(".")[-1]
+                        == "EtherCatError"):
+                    continue
+                n += 1
+                facts = path_facts(stmt_of(c))
+                zero = any(t_ and match("$w == 0", e_) is not None
+                           for e_, t_ in facts) or any(
+                    (not t_) and match("$w != 0", e_) is not None
+                    for e_, t_ in facts) or any(
+                    (not t_) and isinstance(e_, ast.Name)
+                    for e_, t_ in facts)
+                in_layer = name in ("process_packet", "roundtrip_packet",
+                                    "sendloop", "datagram_received",
+                                    "roundtrip", "connection_made",
+                                    "error_received")
+                if in_layer and not zero:
+                    bad.append((c, f"{ci.qualname}.{name}"))
+    chk.floor("R25.5", "EtherCatError constructed in EtherCat classes", n, 1)
+    chk.ob("R25.5", ec.qualname, "the datagram layer raises EtherCatError "
+           "for an unprocessed datagram (working counter 0) only",
+           not bad, bad[0][0] if bad else ec.node,
+           (f"{bad[0][1]} constructs `{unparse(bad[0][0])[:50]}` for "
+            f"another reason: find_free_address takes it for 'nobody "
+            f"answers here' and hands out an address that is in use")
+           if bad else f"{n} construction(s), the one in the layer under "
+           f"`wkc == 0`")
+
+
 def run(chk, repo):
     chk.doc("R25.6", "the set of used addresses is per master")
     per_instance_rule(chk, repo, "R25.6", ["ebpfcat.ethercat.EtherCat"], "bookkeeping of one bus "
@@ -212,6 +258,7 @@ def run(chk, repo):
     chk.doc("R25.3", "configured range")
     chk.doc("R25.4", "writers of the station address")
     chk.doc("R25.5", "EtherCatError means 'not processed'")
+    not_processed_only(chk, repo)
     from . import c12
     c12.frame_answers(chk, repo, "R25.5")
     chk.doc("R12.2", "a probe is answered with the bytes of its own "
